@@ -83,7 +83,7 @@ def cases(tier, seed):
                 d = dict(c)
                 d["semiring"] = s
                 out.append(d)
-        for i_, c in enumerate(_ops.random_pipes(seed, 100, "differentiate")):
+        for i_, c in enumerate(_ops.random_pipes(1, 100, "differentiate")):
             d = dict(c)
             d["semiring"] = "sum-product" if (zero_derivative(c) or i_ % 2 == 0) else "complex-lse-sum"
             out.append(d)
